@@ -199,6 +199,11 @@ def first_guard(fn: ast.FunctionDef) -> Optional[Guard]:
             continue  # docstring
         if isinstance(st, ast.If) and len(st.body) == 1 and isinstance(st.body[0], ast.Return) and dotted(st.body[0].value or ast.Constant(None)) == "Nothing" and not st.orelse:
             return classify_guard(st.test, negated=True)
+        # statements without control flow before the guard (a logging call, a constant binding) do not change which formulas the handler takes
+        if isinstance(st, ast.Assign) and isinstance(st.value, ast.Constant):
+            continue
+        if isinstance(st, ast.Expr) and isinstance(st.value, ast.Call) and (call_name(st.value) or "").split(".")[-1] in ("debug", "info", "warning", "log"):
+            continue
         return None
     return None
 
